@@ -3443,7 +3443,12 @@ func (n *EncapNLRI) decodeFromBytes(data []byte, options ...*MarshallingOption) 
 	default:
 		return NewMessageError(BGP_ERROR_UPDATE_MESSAGE_ERROR, BGP_ERROR_SUB_INVALID_NETWORK_FIELD, nil, "nlri length isn't valid")
 	}
-	addr, _ := netip.AddrFromSlice(data[1:])
+	// the address is as long as announced; more NLRI may follow
+	alen := int(data[0]) / 8
+	if len(data) < 1+alen {
+		return NewMessageError(BGP_ERROR_UPDATE_MESSAGE_ERROR, BGP_ERROR_SUB_INVALID_NETWORK_FIELD, nil, "not all nlri bytes available")
+	}
+	addr, _ := netip.AddrFromSlice(data[1 : 1+alen])
 	n.Endpoint = addr
 	return nil
 }
